@@ -194,3 +194,23 @@ package container
 //@ func (*Processor).checkPutContainer$1
 //@   property C37
 //@   ensures [walk_cut_short_only_by_a_rejection] !result ==> outerresult(0) != nil
+
+// "The placement policy must also be valid": the policies this inner ring can serve - EC
+// rules only when enabled, never REP and EC rules together (whether or not EC is enabled).
+//@ ghost pred policyECRules() int
+//@ ghost pred policyReplicas() int
+//@ callrule c37_policy_ec_rules in (*Processor).checkPutContainer
+//@   property C37
+//@   callee (netmap.PlacementPolicy).ECRules, (*netmap.PlacementPolicy).ECRules
+//@   pureeffect
+//@   defines len(result) == policyECRules()
+//@ callrule c37_policy_replicas in (*Processor).checkPutContainer
+//@   property C37
+//@   callee (netmap.PlacementPolicy).NumberOfReplicas, (*netmap.PlacementPolicy).NumberOfReplicas
+//@   pureeffect
+//@   defines result == policyReplicas()
+//@ func (*Processor).checkPutContainer
+//@   property C37
+//@   opt immutable=Processor.allowEC
+//@   ensures [no_ec_rules_unless_enabled] err == nil && !old(cp.allowEC) ==> policyECRules() == 0
+//@   ensures [never_rep_and_ec_rules_together] err == nil ==> policyECRules() == 0 || policyReplicas() <= 0
